@@ -43,20 +43,32 @@ TraceReset ==
     /\ roots' = {} /\ records' = {} /\ bids' = {} /\ njobs' = 0
     /\ env' = Env0
 
-TraceStart == IsEvent("Start") /\ Start(Fetched, Post)
-TraceTick == IsEvent("Tick") /\ Tick(Post)
-TracePrepare == IsEvent("Prepare") /\ Prepare(Line.e, Line.fired, Fetched, Post)
-TraceHead == IsEvent("Head") /\ HeadEvent(Fetched, Post)
-TraceAttStart == IsEvent("AttStart") /\ AttStart(Line.s, Post)
+\* the attestation jobs the driver holds in flight are the running jobs of the specification
+RunOK == Has(Line, "running") => S(Line.running) = running'
+
+TraceStart == IsEvent("Start") /\ Start(Fetched, Post) /\ RunOK
+TraceTick == IsEvent("Tick") /\ Tick(Post) /\ RunOK
+TracePrepare == IsEvent("Prepare") /\ Prepare(Line.e, Line.fired, Fetched, Post) /\ RunOK
+\* also with attestation jobs running, and (split) with the node's reply to the duty request kept back: the
+\* request is logged with this line, the jobs it leads to with the Resched line
+TraceHead == IsEvent("Head") /\ HeadEvent(Fetched, Post) /\ RunOK
+TraceResched ==
+    /\ IsEvent("Resched")
+    /\ IF Line.fired THEN Resched({Line.e}, Post)
+       ELSE Probe(Post)                         \* the node kept nothing back: nothing may appear
+    /\ RunOK
+TraceProbe == IsEvent("Probe") /\ Probe(Post) /\ RunOK
+TraceAttStart == IsEvent("AttStart") /\ AttStart(Line.s, Post) /\ RunOK
 TraceAttEnd ==
     /\ IsEvent("AttEnd")
     /\ IF Line.gated THEN AttEnd(Line.s, Post)
        ELSE IF Line.fired THEN AttWhole(Line.s, Post)
        ELSE SyncAgg(Line.s, Post)               \* no such job: nothing may appear
-TraceSyncMsg == IsEvent("SyncMsg") /\ SyncMsg(Line.s, Line.fired, Post)
-TraceSyncAgg == IsEvent("SyncAgg") /\ SyncAgg(Line.s, Post)
+    /\ RunOK
+TraceSyncMsg == IsEvent("SyncMsg") /\ SyncMsg(Line.s, Line.fired, Post) /\ RunOK
+TraceSyncAgg == IsEvent("SyncAgg") /\ SyncAgg(Line.s, Post) /\ RunOK
 TraceAuction == IsEvent("Auction") /\ Auction(Line.s, Post)
-TraceAdvance == IsEvent("Advance") /\ Advance(Post) /\ now' = Line.now
+TraceAdvance == IsEvent("Advance") /\ Advance(Post) /\ now' = Line.now /\ RunOK
 
 \* The run on the real scheduler is sampled once per epoch, between samples the services run by
 \* themselves: the sampled state must satisfy the invariants.  The marks and attestation jobs looked
@@ -67,8 +79,19 @@ TraceSample ==
     /\ Apply([Post EXCEPT !.pend = S(Line.stalepend), !.attjobs = S(Line.stalejobs)])
     /\ UNCHANGED <<up, verify, aggmode, running>>
 
-TraceNext == TraceReset \/ TraceStart \/ TraceTick \/ TracePrepare \/ TraceHead \/ TraceAttStart \/ TraceAttEnd
-             \/ TraceSyncMsg \/ TraceSyncAgg \/ TraceAuction \/ TraceAdvance \/ TraceSample
+\* Real scheduler, an attestation held in flight at the node while a head event refreshed its epoch: the
+\* line gives the jobs that are running (the request is with the node / the job has returned), and, for
+\* the slots of those jobs, HasPendingAttestations and the job table.  PendingExact judges it.
+TraceInFlight ==
+    /\ IsEvent("InFlight")
+    /\ now' = Line.now
+    /\ running' = S(Line.running)
+    /\ Apply([Cur EXCEPT !.pend = S(Line.pendprobe), !.attjobs = S(Line.jobsprobe)])
+    /\ UNCHANGED <<up, verify, aggmode>>
+
+TraceNext == TraceReset \/ TraceStart \/ TraceTick \/ TracePrepare \/ TraceHead \/ TraceResched \/ TraceProbe
+             \/ TraceAttStart \/ TraceAttEnd \/ TraceSyncMsg \/ TraceSyncAgg \/ TraceAuction \/ TraceAdvance
+             \/ TraceSample \/ TraceInFlight
 
 TraceSpec == TraceInit /\ [][TraceNext]_tvars
 
